@@ -182,7 +182,7 @@ theorem adds_callS (c : CallS) : Adds (specCallS false c) c.args := by
   unfold ExprValue.extLeaves leafTags
   rw [extLeavesL_eq]
 
-theorem adds_jret (e : Expr) : Adds (specJret false e) [e] := by
+theorem adds_jret (e : Expr) : Adds (specJret false rg e) [e] := by
   intro s
   unfold specJret
   simp only [SpecSt.emits, SpecSt.emit]
